@@ -22,7 +22,7 @@ BUSNAME = 'org.freedesktop.DBus'
 BUSPATH = '/org/freedesktop/DBus'
 BIG = 1 << 31
 
-DEFAULT_CFG = {'maxNames': 100000, 'maxMatch': 100000, 'maxReplies': 100000, 'maxCompleted': 100000,
+DEFAULT_CFG = {'maxMsgFds': 16, 'maxNames': 100000, 'maxMatch': 100000, 'maxReplies': 100000, 'maxCompleted': 100000,
                'maxPerUser': 100000, 'busUid': 0, 'policy': {'kind': 'allow-all'}}
 LIMIT_NAMES = {'maxNames': 'max_names_per_connection', 'maxMatch': 'max_match_rules_per_connection',
                'maxReplies': 'max_replies_per_connection', 'maxCompleted': 'max_completed_connections',
@@ -62,7 +62,7 @@ def norm_args(sig, body):
     return [{'t': ord(s[0]), 'v': norm_val(s, v)} for s, v in zip(split_sig(sig), body)]
 
 
-def norm_msg(m):
+def norm_msg(m, fdtokens=()):
     f = m.fields
     known = set(range(1, 11))
     return {'ty': m.type, 'snd': B(f.get(F_SENDER)), 'dst': B(f.get(F_DESTINATION)), 'ser': m.serial,
@@ -70,7 +70,7 @@ def norm_msg(m):
             'mem': B(f.get(F_MEMBER)), 'err': B(f.get(F_ERROR_NAME)), 'sig': B(m.sig),
             'args': norm_args(m.sig, m.body), 'fl': m.flags, 'nfd': f.get(F_UNIX_FDS, 0),
             'unk': sorted(c for c, _s, _v in m.raw_fields if c not in known),
-            'ci': F_CONTAINER_INSTANCE in f, 'mal': bool(m.dirty),
+            'ci': F_CONTAINER_INSTANCE in f, 'mal': bool(m.dirty), 'fds': list(fdtokens),
             '_': _human(m)}
 
 
@@ -86,6 +86,7 @@ class SlotState:
     def __init__(self):
         self.c = None
         self.monitor = False
+        self.joined = []
         self.closed = True     # no connection
         self.eof = False
 
@@ -102,6 +103,8 @@ class Driver:
         kw = dict(daemon_kw or {})
         if 'maxMsgSize' in self.cfg:
             limits['max_message_size'] = self.cfg['maxMsgSize']
+        if self.cfg.get('maxMsgFds', 16) != 16:
+            limits['max_message_unix_fds'] = self.cfg['maxMsgFds']
         if 'policy_ctxs' in self.cfg:
             import policygen
             xml, rec = policygen.policy([tuple(c) for c in self.cfg['policy_ctxs']], self.cfg.get('groups_of'))
@@ -111,7 +114,25 @@ class Driver:
         self.daemon = Daemon(build, **kw)
         self.lines = [{'e': 'Reset', 'cfg': {k: self.cfg[k] for k in
                                               ('maxNames', 'maxMatch', 'maxReplies', 'maxCompleted', 'maxPerUser',
-                                               'busUid', 'policy')}}]
+                                               'busUid', 'policy', 'maxMsgFds')}}]
+        # baseline of the daemon's descriptor table, taken after it has finished its lazy start-up work
+        try:
+            w = Conn(self.daemon.path, abstract=self.daemon.abstract)
+            w.hello()
+            w.close()
+        except (IOError, OSError):
+            pass
+        t0 = time.time()
+        last = -1
+        while time.time() - t0 < 1.0:
+            n = self.daemon.nfds()
+            if n == last:
+                break
+            last = n
+            time.sleep(0.02)
+        self.base_fds = self.daemon.nfds()
+        self.fdtok = {}        # (st_dev, st_ino) -> token
+        self.nfiles = 0
         self.stall = []
         self.times = {}
 
@@ -124,13 +145,14 @@ class Driver:
                 return None
             try:
                 st.c = Conn(self.daemon.path, uid=op.get('uid', 0), abstract=self.daemon.abstract,
-                            negotiate_fds=op.get('fds', False))
+                            negotiate_fds=op.get('fdcap', False))
             except (IOError, OSError) as e:
                 return {'k': 'connect_failed', 'uid': op.get('uid', 0), 'why': str(e)}
             st.closed = False
             st.eof = False
             st.monitor = False
-            return {'k': 'connect', 'uid': op.get('uid', 0)}
+            st.joined = []
+            return {'k': 'connect', 'uid': op.get('uid', 0), 'fdcap': bool(st.c.fd_ok)}
         if st.closed or st.eof:
             return None
         c = st.c
@@ -217,11 +239,30 @@ class Driver:
             raw.append((code, vs, _body(vs, [vv])[0]))
         ser = op.get('ser') or c.next_serial()
         fl = op.get('fl', 0)
-        data = build_message(ty, ser, f, sig, body, fl, le=op.get('le', True), raw_fields=raw)
-        c.send_raw(data)
-        return {'k': 'send', 'ser': ser, 'fl': fl, 'ty': ty, 'dst': B(_txt(op.get('dst'))), 'rs': op.get('rs', 0),
+        nattach = op.get('fds', 0)
+        nfd = op.get('nfd', nattach)
+        fds, toks = self.new_files(nattach)
+        data = build_message(ty, ser, f, sig, body, fl, le=op.get('le', True), raw_fields=raw,
+                             nfds=nfd if (nattach or 'nfd' in op) else None)
+        st = [x for x in self.slots.values() if x.c is c][0]
+        st.joined.append((data, fds))
+        if not op.get('join'):
+            blob = b''.join(d for d, _f in st.joined)
+            allfds = [x for _d, fl_ in st.joined for x in fl_]
+            cut = op.get('split')
+            if cut and 0 < cut < len(blob):
+                # the descriptors travel with the first chunk; the rest follows in a separate write
+                c.send_raw(blob[:cut], allfds or None)
+                time.sleep(0.003)
+                c.send_raw(blob[cut:])
+            else:
+                c.send_raw(blob, allfds or None)
+            for x in allfds:
+                os.close(x)
+            st.joined = []
+        return {'k': 'send', 'ser': ser, 'fl': fl, 'ty': ty, 'att': toks, 'dst': B(_txt(op.get('dst'))), 'rs': op.get('rs', 0),
                 'path': B(_txt(op.get('path'))), 'ifc': B(_txt(op.get('ifc'))), 'mem': B(_txt(op.get('mem'))),
-                'err': B(_txt(op.get('err'))), 'sig': B(sig), 'args': norm_args(sig, body), 'nfd': 0,
+                'err': B(_txt(op.get('err'))), 'sig': B(sig), 'args': norm_args(sig, body), 'nfd': nfd,
                 'forged': bool(forge), 'fsnd': B(forge.get('sender')), '_': '%s %s %s.%s' % (ty, op.get('dst'), op.get('ifc'), op.get('mem'))}
 
     # -- reading
@@ -240,9 +281,7 @@ class Driver:
                     self.stall.append(s)
                     return False
                 continue
-            obs.append(norm_msg(m))
-            for fd in m.fds:
-                os.close(fd)
+            obs.append(norm_msg(m, self.tokens_of(m.fds)))
             if m.type in (METHOD_RETURN, ERROR) and m.fields.get(F_REPLY_SERIAL) == serial \
                     and m.fields.get(F_SENDER) == BUSNAME:
                 return True
@@ -256,7 +295,35 @@ class Driver:
                 if st.c.eof:
                     st.eof = True
                 return
-            obs.append(norm_msg(m))
+            obs.append(norm_msg(m, self.tokens_of(m.fds)))
+
+    def tokens_of(self, fds):
+        """identify received descriptors as the files the driver created (token), then close them"""
+        out = []
+        for fd in fds:
+            try:
+                st = os.fstat(fd)
+                out.append(self.fdtok.get((st.st_dev, st.st_ino), -1))
+            except OSError:
+                out.append(-2)
+            try:
+                os.close(fd)
+            except OSError:
+                pass
+        return out
+
+    def new_files(self, n):
+        fds, toks = [], []
+        d = os.path.join(self.daemon.dir, 'fdfiles')
+        os.makedirs(d, exist_ok=True)
+        for _ in range(n):
+            self.nfiles += 1
+            fd = os.open(os.path.join(d, 'f%d' % self.nfiles), os.O_RDWR | os.O_CREAT, 0o600)
+            st = os.fstat(fd)
+            self.fdtok[(st.st_dev, st.st_ino)] = self.nfiles
+            fds.append(fd)
+            toks.append(self.nfiles)
+        return fds, toks
 
     def run_round(self, rnd):
         ops_in = {int(k): v for k, v in rnd.get('ops', {}).items()}
@@ -405,6 +472,12 @@ class Driver:
         for st in self.slots.values():
             if st.c is not None and not st.closed:
                 st.c.close()
+        # every client is gone: the daemon's descriptor table must go back to where it started
+        if self.daemon.alive():
+            t0 = time.time()
+            while time.time() - t0 < 3.0 and self.daemon.nfds() != self.base_fds:
+                time.sleep(0.01)
+            self.lines.append({'e': 'Final', 'fdleak': self.daemon.nfds() - self.base_fds})
         res = self.daemon.stop()
         if res['crashed']:
             self.lines.append({'e': 'Crash', 'rc': res['rc'], 'report': res['report']})
